@@ -6,6 +6,7 @@ import (
 	"go/types"
 	"io"
 	"math/big"
+	"os"
 	"os/exec"
 	"strings"
 	"time"
@@ -262,6 +263,10 @@ func (m *modelReader) pin(term string, v *sx) {
 // short slice ...). Everything read so far is pinned first, so earlier answers stay valid. Returns false (model
 // unchanged up to unread terms) when no such model is found quickly.
 func (m *modelReader) shape(cond string) bool {
+	return m.shapeCmds("(assert " + cond + ")\n")
+}
+
+func (m *modelReader) shapeCmds(cmds string) bool {
 	if m.shapes >= 24 || time.Until(m.s.deadline) < 20*time.Second {
 		return false
 	}
@@ -271,7 +276,7 @@ func (m *modelReader) shape(cond string) bool {
 		b.WriteString(p)
 	}
 	m.npinned = len(m.pins)
-	b.WriteString("(push 1)\n(assert " + cond + ")\n")
+	b.WriteString("(push 1)\n" + cmds)
 	if err := m.s.write(b.String()); err != nil {
 		panic(unsupportedErr{"model extraction: " + err.Error()})
 	}
@@ -303,7 +308,7 @@ func (m *modelReader) ptrRootOK(v *sx) bool {
 	if !ok {
 		return false
 	}
-	return n.Sign() > 0 && n.Cmp(m.wmark) < 0
+	return n.Sign() >= 0 && n.Cmp(m.wmark) < 0 // (Fld (Base 0) k) is a legal non-nil address of the model (only (Base 0) itself is nil)
 }
 
 func (m *modelReader) entryComp(key string) (string, bool) {
@@ -349,6 +354,9 @@ func (m *modelReader) readAt(addr string, t types.Type, path string) rVal {
 		for i := 0; i < u.NumFields(); i++ {
 			key := fmt.Sprintf("%s#%d", types.TypeString(t, nil), i)
 			id, ok := m.fc.tc.fieldID[key]
+			if replayDebug {
+				fmt.Fprintf(os.Stderr, "replay: field %s.%s key=%q known=%v id=%d\n", path, u.Field(i).Name(), key, ok, id)
+			}
 			if !ok {
 				continue // the verification condition never mentions this field: zero value
 			}
@@ -520,6 +528,16 @@ func (m *modelReader) readOpaque(term string, t types.Type, path string) rVal {
 			return nil
 		}
 		ln, pos := big.NewInt(0), big.NewInt(0)
+		if hasLen && hasPos {
+			// the contracts do not restrict the entry state of a reader; a reachable one has 0 <= pos <= len
+			l0, p0 := m.getInt(app("sf_bytes_rdlen", term)), m.getInt(app("sf_bytes_rdpos", term))
+			if p0.Sign() < 0 || p0.Cmp(l0) > 0 || l0.Cmp(big.NewInt(replayMaxLen)) > 0 {
+				ok := m.shape(and(app("<=", "0", app("sf_bytes_rdpos", term)), app("<=", app("sf_bytes_rdpos", term), app("sf_bytes_rdlen", term)), app("<=", app("sf_bytes_rdlen", term), "256")))
+				if !ok {
+					m.shape(and(app("<=", "0", app("sf_bytes_rdpos", term)), app("<=", app("sf_bytes_rdpos", term), app("sf_bytes_rdlen", term))))
+				}
+			}
+		}
 		if hasLen {
 			ln = m.getInt(app("sf_bytes_rdlen", term))
 			if ln.Cmp(big.NewInt(replayMaxLen)) > 0 && m.shape(app("<=", app("sf_bytes_rdlen", term), "256")) {
@@ -614,8 +632,14 @@ func (m *modelReader) blockElem(b *rBlock, j int, path string) {
 	b.elems[j] = m.readAt(mkElem(b.addr, num(int64(j))), b.elem, fmt.Sprintf("%s[%d]", path, j))
 }
 
-func (m *modelReader) readSlice(term string, elem types.Type, path string) rVal {
+var replayDebug = os.Getenv("GOVC_REPLAY_DEBUG") != ""
+
+func (m *modelReader) readSlice(term string, elem types.Type, path string) (res rVal) {
 	vs := m.get(sarr(term), soff(term), slen(term), scap(term))
+	if replayDebug {
+		fmt.Fprintf(os.Stderr, "replay: slice %s = %s %s %s %s (W=%s)\n", path, vs[0], vs[1], vs[2], vs[3], m.wmark)
+		defer func() { fmt.Fprintf(os.Stderr, "replay: slice %s -> %s\n", path, describe(res, 3)) }()
+	}
 	arr := vs[0]
 	off, ok1 := sxInt(vs[1])
 	ln, ok2 := sxInt(vs[2])
